@@ -39,14 +39,15 @@ const (
 )
 
 type emitSel struct {
-	kind    emitKind
-	name    string   // function name or "pkgSuffix.Type"
-	field   string   // for emAppendLit: "Field=ConstName"; for emAssignField: field name
-	argIs   string   // optional: for emCall — some argument's text must contain this
-	text    string   // optional: the emitted literal/call text must contain this (e.g. a constant message)
-	args    []string // optional, for emCall: positional argument texts ("" = any) that must be contained
-	notText string   // optional: the emitted node must not mention this identifier/literal text
-	ctor    bool     // set by the row engine on its fallback pass: a literal may be built by a called constructor
+	kind     emitKind
+	name     string   // function name or "pkgSuffix.Type"
+	field    string   // for emAppendLit: "Field=ConstName"; for emAssignField: field name
+	argIs    string   // optional: for emCall — some argument's text must contain this
+	text     string   // optional: the emitted literal/call text must contain this (e.g. a constant message)
+	args     []string // optional, for emCall: positional argument texts ("" = any) that must be contained
+	notText  string   // optional: the emitted node must not mention this identifier/literal text
+	fromCall string   // optional, for emAssignIdent: the assigned value is the (first) result of a call of this function, directly or through a single-definition local
+	ctor     bool     // set by the row engine on its fallback pass: a literal may be built by a called constructor
 }
 
 func splitType(s string) (pkg, name string) {
@@ -233,6 +234,30 @@ func findEmissionsIn(fn *Func, body ast.Node, sel emitSel) []ast.Node {
 				}
 			}
 		case emAssignIdent:
+			if as, ok := n.(*ast.AssignStmt); ok && sel.fromCall != "" {
+				// x = f(…) / x, _ = f(…) / m, _ := f(…); x = m
+				isFrom := func(e ast.Expr) bool {
+					e = ast.Unparen(e)
+					if id, ok := e.(*ast.Ident); ok {
+						o := info.ObjectOf(id)
+						for _, a := range fn.Assignments(o) {
+							if s2, ok := a.(*ast.AssignStmt); ok && len(s2.Rhs) == 1 && len(fn.Assignments(o)) == 1 {
+								if isIdentObj(info, s2.Lhs[0], o) && callNamed(info, s2.Rhs[0], sel.fromCall) != nil {
+									return true
+								}
+							}
+						}
+						return false
+					}
+					return callNamed(info, e, sel.fromCall) != nil
+				}
+				if id, ok := ast.Unparen(as.Lhs[0]).(*ast.Ident); ok && as.Tok == token.ASSIGN && identIs(fn, id, sel.name) {
+					if (len(as.Rhs) == 1 && isFrom(as.Rhs[0])) || (len(as.Lhs) == len(as.Rhs) && isFrom(as.Rhs[0])) {
+						out = append(out, as)
+					}
+				}
+				return true
+			}
 			if as, ok := n.(*ast.AssignStmt); ok && len(as.Lhs) == len(as.Rhs) {
 				for i, l := range as.Lhs {
 					if id, ok := ast.Unparen(l).(*ast.Ident); ok && (sel.name == "" || identIs(fn, id, sel.name)) {
@@ -298,14 +323,17 @@ type guard struct {
 	sub  []guard
 }
 
-func gc(name string) guard               { return guard{kind: gCall, name: name, pol: true} }
-func gcNot(name string) guard            { return guard{kind: gCall, name: name, pol: false} }
-func gf(name string) guard               { return guard{kind: gField, name: name, pol: true} }
-func gfNot(name string) guard            { return guard{kind: gField, name: name, pol: false} }
-func gNonNil(name string) guard          { return guard{kind: gNil, name: name, pol: false} }
-func gIsNil(name string) guard           { return guard{kind: gNil, name: name, pol: true} }
-func gOk(name string) guard              { return guard{kind: gOkLookup, name: name, pol: true} }
-func gNotOk(name string) guard           { return guard{kind: gOkLookup, name: name, pol: false} }
+func gc(name string) guard      { return guard{kind: gCall, name: name, pol: true} }
+func gcNot(name string) guard   { return guard{kind: gCall, name: name, pol: false} }
+func gf(name string) guard      { return guard{kind: gField, name: name, pol: true} }
+func gfNot(name string) guard   { return guard{kind: gField, name: name, pol: false} }
+func gNonNil(name string) guard { return guard{kind: gNil, name: name, pol: false} }
+func gIsNil(name string) guard  { return guard{kind: gNil, name: name, pol: true} }
+func gOk(name string) guard     { return guard{kind: gOkLookup, name: name, pol: true} }
+func gNotOk(name string) guard  { return guard{kind: gOkLookup, name: name, pol: false} }
+func gOkOn(name, subject string) guard {
+	return guard{kind: gOkLookup, name: name, pol: true, rhs: subject}
+}
 func gcmp(text string) guard             { return guard{kind: gCmp, name: text, pol: true} }
 func gcmpNot(text string) guard          { return guard{kind: gCmp, name: text, pol: false} }
 func gany(gs ...guard) guard             { return guard{kind: gAny, sub: gs} }
@@ -561,6 +589,9 @@ func atomMatches(fn *Func, a *Atom, g guard) bool {
 	a = fn.viewAtom(a)
 	if a.E == nil {
 		if g.kind == gOkLookup && a.TypeX != nil && a.Pol == g.pol {
+			if g.rhs != "" && !sameText(fn, cmpText(a.TypeX), g.rhs) && !sameText(fn, cmpText(fn.InlineLocals(a.TypeX, 3)), g.rhs) {
+				return false // the switch is over something other than the stated subject
+			}
 			for _, t := range a.Types {
 				if lastSel(t) == g.name {
 					return true
@@ -689,6 +720,9 @@ func atomMatches(fn *Func, a *Atom, g guard) bool {
 					}
 				case *ast.TypeAssertExpr:
 					if r.Type != nil && lastSel(r.Type) == g.name {
+						if g.rhs != "" && !sameText(fn, cmpText(r.X), g.rhs) && !sameText(fn, cmpText(fn.InlineLocals(r.X, 3)), g.rhs) {
+							continue
+						}
 						return a.Pol == g.pol
 					}
 				case *ast.CallExpr:
@@ -907,20 +941,21 @@ func isSortFuncName(f *types.Func) bool {
 // ---- rows ---------------------------------------------------------------------------------
 
 type row struct {
-	prop  string
-	also  []string // further properties this row is a necessary condition of
-	id    string   // stable row id (part of the obligation key)
-	pkg   string   // package suffix, e.g. "decoder"
-	fn    string   // function name (bare, without package/receiver) — "" = any function of pkg
-	recv  string   // receiver type name ("" = any)
-	disj  []string // if set: the nearest enclosing if-condition is exactly this disjunction (normalised comparison texts)
-	emit  emitSel
-	need  []guard
-	min   int             // minimum number of emission sites expected
-	pos   []string        // if set: every cursor-position predicate (ContainsPos) guarding the emission is one of these texts
-	exact []string        // if set: the set of comparison/field atoms allowed as *data filters* at the emission (no others)
-	live  map[string]bool // if set: with these atoms fixed (text -> truth) the emission must still be reachable (the guards may not be stronger)
-	why   string
+	prop   string
+	also   []string // further properties this row is a necessary condition of
+	id     string   // stable row id (part of the obligation key)
+	pkg    string   // package suffix, e.g. "decoder"
+	fn     string   // function name (bare, without package/receiver) — "" = any function of pkg
+	recv   string   // receiver type name ("" = any)
+	disj   []string // if set: the nearest enclosing if-condition is exactly this disjunction (normalised comparison texts)
+	emit   emitSel
+	need   []guard
+	min    int             // minimum number of emission sites expected
+	pos    []string        // if set: every cursor-position predicate (ContainsPos) guarding the emission is one of these texts
+	noSafe []string        // calls that do count as data filters for this row's exact check (normally position / error tests do not)
+	exact  []string        // if set: the set of comparison/field atoms allowed as *data filters* at the emission (no others)
+	live   map[string]bool // if set: with these atoms fixed (text -> truth) the emission must still be reachable (the guards may not be stronger)
+	why    string
 }
 
 func bareFuncName(fn *Func) string {
@@ -1032,7 +1067,7 @@ func runRows(prop string) func(p *Prog, r *Report) {
 			}
 			depthOf := map[*Func]int{}
 			if rw.fn != "" {
-				depthOf = helperClosure(p, named, 2)
+				depthOf = helperClosure(p, named, 3)
 			} else {
 				for _, f := range named {
 					depthOf[f] = 0
@@ -1067,7 +1102,7 @@ func runRows(prop string) func(p *Prog, r *Report) {
 					}
 					var missing []string
 					for _, g := range rw.need {
-						if !guardHoldsInh(p5c, fn, em, g, 2) {
+						if !guardHoldsInh(p5c, fn, em, g, 4) {
 							missing = append(missing, g.String())
 						}
 					}
@@ -1081,8 +1116,21 @@ func runRows(prop string) func(p *Prog, r *Report) {
 						var extra []string
 						judge := func(fx *Func, f *Formula) {
 							for _, a := range f.AllAtoms() {
-								if a == nil || a.Expanded || safeAtom(fx, a) {
+								if a == nil || a.Expanded {
 									continue
+								}
+								if safeAtom(fx, a) {
+									unsafe := false
+									if c, ok := ast.Unparen(a.E).(*ast.CallExpr); ok && a.E != nil {
+										for _, nm := range rw.noSafe {
+											if lastSel(c.Fun) == nm {
+												unsafe = true
+											}
+										}
+									}
+									if !unsafe {
+										continue
+									}
 								}
 								allowed := false
 								for _, g := range rw.need {
